@@ -200,3 +200,20 @@ package config
 //@   loop 1 assume deref(c) != nil && deref(c).svcConfig != nil && deref(c).svcEndpoint != nil && deref(c).svcConfig.svcDiscoveryClient != nil && deref(c).svcEndpoint.svcDiscoveryClient != nil && deref(c).svcConfig.svcDiscoveryClient.subscribed != nil && deref(c).svcConfig.svcDiscoveryClient.unsubCh != nil && deref(c).svcEndpoint.svcDiscoveryClient.subscribed != nil && deref(c).svcEndpoint.svcDiscoveryClient.unsubCh != nil && (forall k int :: 0 <= k && k < len(removed) ==> removed[k] != nil)
 //@   callpre Subscribe @every-added-dependency-is-subscribed-on-both-streams rangeindex + 1 < len(added) && arg1 == added[rangeindex + 1].Name
 //@   callpre Unsubscribe @every-removed-dependency-is-unsubscribed-on-both-streams rangeindex + 1 < len(removed) && arg1 == removed[rangeindex + 1].Name
+
+// ---- C16: a stream wrapper sends exactly one raw request per Send, carrying exactly the two name lists it
+// was given (this is the type contract the subscription client relies on) --------------------------------------
+
+//@ func (*svcConfigDiscoveryStream).Send
+//@   prop C16
+//@   requires stream != nil
+//@   modifies all
+//@   onlycalls Send
+//@   callpre Send @one-raw-request-carrying-exactly-the-names-given sameslice(arg1.SvcNamesSubscribe, subscribed) && sameslice(arg1.SvcNamesUnsubscribe, unsubscribed)
+
+//@ func (*svcEndpointDiscoveryStream).Send
+//@   prop C16
+//@   requires stream != nil
+//@   modifies all
+//@   onlycalls Send
+//@   callpre Send @one-raw-request-carrying-exactly-the-names-given sameslice(arg1.SvcNamesSubscribe, subscribed) && sameslice(arg1.SvcNamesUnsubscribe, unsubscribed)
